@@ -21,18 +21,18 @@ CHECKS = {
  "C17": ("exploration", "runtime oracle over seeded sample histories of the real filters: reference model for the lucky-packet selection, property-derived necessary conditions and a reset-independence metamorphic check for Ntimed, with the filter's own log record as probe",
          "Held on all generated histories for all 144 (cap,pick) configurations and on Ntimed histories with resets/epoch changes at every position.",
          "trusts the harness's reference selection (distinct round-trip delays only), float tolerance of 4 ulp + 2 ns for the Ntimed raw-offset clause", "3/C17"),
- "C19": ("exploration", "runtime monitor of Step/Adjust calls on a scripted clock while the real PLL is fed seeded (offset, weight, time, epoch) histories",
-         "Necessary conditions from the statement evaluated on every actuation of every generated history (both epoch-bumping and non-bumping clocks).",
-         "offsets != MinInt64, non-decreasing clock readings; for gaps >= 2^23 s the duration is accepted within float rounding", "3/C19"),
+ "C19": ("exploration", "runtime monitor of Step/Adjust calls on a scripted clock while the real PLL is fed seeded (offset, weight, time, epoch) histories; plus the real clock driver (and the PLL on it) in child processes under strace, whose clock_adjtime calls are logged and answered by injection, replayed against the Step/Adjust calls a recording wrapper saw",
+         "Necessary conditions from the statement evaluated on every actuation of every generated history (both epoch-bumping and non-bumping clocks); on the driver: every kernel call accounted for by a request, frequency = f + offset/duration, restored after the duration (never before, unless a step cuts it short), steps in normalised nanosecond form and one new epoch per step.",
+         "non-decreasing clock readings; for gaps >= 2^23 s the duration is accepted within float rounding; the kernel leg runs in real time (whole-second durations of 1..2 s) and needs strace's syscall injection — where the canary call is not intercepted the leg does not run and says so in the evidence", "3/C19"),
  "C01": ("exploration", "runtime monitor of Do/Sleep/measure events of the real sync.Run inside testing/synctest bubbles (virtual time) with scripted clock, adjustment and sources",
          "Held on every generated configuration x source script: event grammar, timing on the virtual clock, magnitude bound, and the composition clause in rounds determined by their own measurements; inadmissible configurations refused before any measurement.",
-         "trusts testing/synctest; correction caps < 2^61 ns; composition clause only for |offset| < 2^62 and fully answered rounds (stale result slots are outside what the statement fixes)", "3/C01"),
+         "trusts testing/synctest; correction caps < 2^63 ns; composition clause for |offset| >= 2^62 only where all answers of a side agree", "3/C01"),
  "C12": ("exploration", "runtime monitor of Provider.Current/Get under testing/synctest virtual time from 1..16 goroutines with the race detector; per-call oracle at the exact virtual instant plus scheduled Get probes",
          "Held on all generated call schedules over up to ~100 virtual days incl. idle gaps at every boundary (24 h, 72 h +-1 ns); race reports in net/ntske are violations.",
          "trusts testing/synctest and the race detector; validity bounds inclusive as implemented", "3/C12"),
  "C06": ("exploration", "runtime monitor at the verif hook: transition predicates from the statement over (store snapshot, operation, reply, snapshot) on seeded sequential histories under a scripted clock, with a shadow map of every reply's true transmit time",
          "Held on all generated histories (colliding/decreasing receive times, clock before/at/after rx, own/foreign/unknown origins, reordered and lost transmit timestamps).",
-         "hook level (build tag verif); double updates and a kernel stamp equal to the software time are outside the generated domain; updates that hit a record re-created under the same receive timestamp are not judged", "3/C06"),
+         "hook level (build tag verif); double updates and a kernel stamp equal to the software time are outside the generated domain", "3/C06"),
  "C07": ("exploration", "store invariants walked under the store's own lock after every operation; capacity/eviction at exactly 2^20 clients; concurrent histories under the race detector checked for linearizability with porcupine against the code's own sequential behaviour",
          "Held on all histories: structure and ranking after every operation, eviction exactly as stated at capacity, no race report in core/server, every recorded concurrent history linearizable.",
          "hook level; linearizability below capacity (partition by client); porcupine timeout = inconclusive; reach of the race detector = interleavings the scheduler produced (counted in the evidence)", "3/C07"),
